@@ -196,6 +196,10 @@ pub fn u64_to_be_bytes(x: u64) -> (r: [u8; 8]) ensures r@ == be64(x) { x.to_be_b
 pub assume_specification<T, const N: usize> [<[T; N]>::as_mut_slice] (a: &mut [T; N]) -> (r: &mut [T])
     ensures r@ == old(a)@, final(r)@ == final(a)@;
 
+//@trusted T2 <[T]>::to_vec clones the elements into a new Vec of the same length
+pub assume_specification<T: Clone>[ <[T]>::to_vec ](s: &[T]) -> (r: Vec<T>)
+    ensures r@.len() == s@.len(), forall|i: int| 0 <= i < s@.len() ==> cloned::<T>(#[trigger] s@[i], r@[i]);
+
 //@trusted T2 `vec[range]` as a place (IndexMut on Vec) is the same as on the underlying slice (alloc: `IndexMut::index_mut(&mut **self, index)`); vstd only specifies the slice/array impls
 pub assume_specification<T, I: core::slice::SliceIndex<[T]>, A: core::alloc::Allocator>[ <Vec<T, A> as core::ops::IndexMut<I>>::index_mut ](v: &mut Vec<T, A>, index: I) -> (output: &mut <Vec<T, A> as core::ops::Index<I>>::Output)
     ensures exists|slice: &mut [T]| #[trigger] slice@ == old(v)@ && final(slice)@ == final(v)@ && call_ensures(<[T] as core::ops::IndexMut<I>>::index_mut, (slice, index), output);
